@@ -378,6 +378,7 @@ def main():
 
         evaluations = 0
         model_lines = 0
+        thm_inst = {}
         distinct = set()
         samples = []
         dist = {}
@@ -389,6 +390,9 @@ def main():
                 mobs = parse_obs(rm.stdout)
                 iobs = parse_obs(ri.stdout)
                 model_lines += len(mobs)
+                for tl in rm.stdout.splitlines():
+                    if tl.startswith("#thm "):
+                        thm_inst[tl[5:]] = thm_inst.get(tl[5:], 0) + 1
                 distinct |= props.nontrivial(pid, txt, iobs)
                 for ln in txt.splitlines():
                     t = ln.split()
@@ -482,7 +486,7 @@ def main():
                 disagreements=len(disagreements),
                 variant_runs=nvariants[0],
                 translator_ok=tr_ok,
-                extra=extra.get("coverage", {}),
+                extra=dict(extra.get("coverage", {}), theorem_hypothesis_instances=thm_inst),
             ),
             assumptions=spec.get("assumptions", []),
             wall_s=round(time.time() - t0, 2),
